@@ -47,6 +47,11 @@ pub struct Monitor {
     pub touched_hi: usize,
     pub straddles: u64,
     pub bytes_none: u64,
+    /// (call index, action): run once, in the middle of that reader call —
+    /// a reader that uses the library itself while serving a request
+    pub reentry: Option<(u64, Box<dyn FnOnce()>)>,
+    /// requests that a `Refusing` reader declined: (absolute offset, length)
+    pub refusals: Vec<(usize, usize)>,
 }
 
 impl Monitor {
@@ -61,6 +66,16 @@ impl Monitor {
 }
 
 fn note(mon: &Rc<RefCell<Monitor>>, method: Method, arg: usize, remaining: usize, abs: usize) {
+    let action = {
+        let mut m = mon.borrow_mut();
+        match &m.reentry {
+            Some((at, _)) if *at == m.calls + 1 => m.reentry.take().map(|x| x.1),
+            _ => None,
+        }
+    };
+    if let Some(f) = action {
+        f();
+    }
     let mut m = mon.borrow_mut();
     m.calls += 1;
     // path: method + how the argument relates to what remains
@@ -413,6 +428,40 @@ pub enum ReaderCfg {
     Owned,
     /// monitored, `T = Vec<u8>`, chunk boundaries
     Segmented(Vec<usize>),
+    /// monitored contiguous view that, while serving its `at`-th request,
+    /// uses the library itself for something else on the same thread
+    Reentrant { at: u32, nested: Nested },
+}
+
+/// What a re-entrant reader does in the middle of a request.
+#[derive(Clone, Debug, PartialEq, Eq, Serialize, Deserialize)]
+pub enum Nested {
+    /// decode a whole message (`opts = None`: `Message::try_read`)
+    Decode {
+        #[serde(with = "crate::model::hexser")]
+        bytes: Vec<u8>,
+        opts: Option<u8>,
+    },
+    /// `AVP::try_read_greedy`
+    Greedy {
+        #[serde(with = "crate::model::hexser")]
+        bytes: Vec<u8>,
+    },
+    /// `AVP::reveal` of a hidden AVP
+    Reveal {
+        attr: u16,
+        #[serde(with = "crate::model::hexser")]
+        value: Vec<u8>,
+        #[serde(with = "crate::model::hexser")]
+        secret: Vec<u8>,
+        rv: [u8; 4],
+    },
+    /// the public per-type decoder of `attr` on these payload octets
+    TypeRead {
+        attr: u16,
+        #[serde(with = "crate::model::hexser")]
+        payload: Vec<u8>,
+    },
 }
 
 impl ReaderCfg {
@@ -422,6 +471,7 @@ impl ReaderCfg {
             ReaderCfg::Slice => "slice",
             ReaderCfg::Owned => "owned",
             ReaderCfg::Segmented(_) => "segmented",
+            ReaderCfg::Reentrant { .. } => "re-entrant",
         }
     }
 }
